@@ -49,8 +49,55 @@ func (w *JobWorld) byzRelay(p *Pigeon, chain string, m *consensustypes.MessageWi
 	if !ok {
 		return false
 	}
-	if _, isUpload := msg.Action.(*evmtypes.Message_UploadSmartContract); isUpload {
-		return false // the very first deployment is relayed honestly (otherwise nothing ever starts)
+	if up, isUpload := msg.Action.(*evmtypes.Message_UploadSmartContract); isUpload {
+		if !b.ChainActive(chain) {
+			return false // the very first deployment is relayed honestly (otherwise nothing ever starts)
+		}
+		// a replacement of the bridge contract: the liar deploys something else (successfully) and reports it
+		if t.Draw(3) == 0 {
+			return false
+		}
+		code, ctor := up.UploadSmartContract.Bytecode, up.UploadSmartContract.ConstructorInput
+		flip := func(bz []byte) []byte {
+			c := append([]byte(nil), bz...)
+			if len(c) > 0 {
+				c[t.Intn(len(c))] ^= byte(1 + t.Intn(255))
+			}
+			return c
+		}
+		join := func(parts ...[]byte) []byte {
+			var out []byte
+			for _, p := range parts {
+				out = append(out, p...)
+			}
+			return out
+		}
+		kinds := []string{"upload-corrupt-ctor", "upload-spliced-ctor", "upload-appended", "upload-truncated", "upload-corrupt-code", "upload-ctor-only-tail"}
+		kind := kinds[t.Intn(len(kinds))]
+		var data []byte
+		switch kind {
+		case "upload-corrupt-ctor":
+			data = join(code, flip(ctor))
+		case "upload-spliced-ctor":
+			data = join(code, flip(ctor), ctor) // its own constructor arguments first, the expected ones as dead tail
+		case "upload-appended":
+			data = join(code, ctor, []byte{byte(t.Intn(256)), 0xad})
+		case "upload-truncated":
+			all := join(code, ctor)
+			data = all[:len(all)-1-t.Intn(32)]
+		case "upload-corrupt-code":
+			data = join(flip(code), ctor)
+		default:
+			data = join(code, []byte{0x60, 0x01}, ctor)
+		}
+		rec := ch.DeployOther(eth, data)
+		var vsID uint64
+		if snap, err := b.N.App.ValsetKeeper.GetCurrentSnapshot(b.Ctx()); err == nil && snap != nil {
+			vsID = snap.Id
+		}
+		b.R.Stats.Fault("relayer_lie_" + kind)
+		b.R.Trace.Event("relay-lie", "%s msg=%d by=%s kind=%s status=%d", chain, m.Id, p.V.Acct.Name, kind, rec.Receipt.Status)
+		return p.send("publicaccess", &consensustypes.MsgSetPublicAccessData{Metadata: p.meta(), MessageID: m.Id, QueueTypeName: queueName(chain), Data: rec.Tx.Hash().Bytes(), ValsetID: vsID})
 	}
 	if t.Draw(3) == 0 {
 		return false // sometimes behave
